@@ -208,6 +208,7 @@ def eval_cases(args):
     res = []
     lines = []
     pcache: dict = {}
+    cases_by_res: dict = {}
     for c in cases:
         key = L.dumps(c["pattern"])
         if key not in pcache:
@@ -229,6 +230,12 @@ def eval_cases(args):
         if do_commute and c.get("commute"):
             r["real_commute"] = L.run_real_commute(bp, bg, c["root"], c["rm"], c["pattern"]["cond"])
             lines.append(L.case_line("commute", c, pt, gt))
+            if L.commute_oracle_applies(c["pattern"]):
+                # the property's oracle for commute: the instances of the pattern with operands swapped
+                r["commute_spec"] = []
+                for m in L.commute_masks(c["pattern"]):
+                    lines.append(L.case_line("spec", c, L.enc_pattern(L.swapped_pattern(c["pattern"], m)), gt))
+        cases_by_res[id(r)] = c
         res.append(r)
     outs = _ask_driver(lines) if lines else []
     k = 0
@@ -241,6 +248,10 @@ def eval_cases(args):
         if "real_commute" in r:
             r["commute"] = outs[k]
             k += 1
+            if "commute_spec" in r:
+                nm = len(L.commute_masks(cases_by_res[id(r)]["pattern"]))
+                r["commute_spec"] = outs[k : k + nm]
+                k += nm
     return res
 
 
@@ -309,7 +320,36 @@ def commute_agree(case, real: str, model: str) -> bool:
     if len(a) != len(b) or a[0] != b[0] or not pred_tagged_backtracking_or(case):
         return False
     # a variant on which merge_current_match raises (finding C06-F8) is not compared
-    return all(x == y or x == "EXC:ValueError" for x, y in zip(a[1:], b[1:]))
+    return all(x == y or (x.startswith("EXC:ValueError") and x.split(" #K ")[-1] == y.split(" #K ")[-1])
+               for x, y in zip(a[1:], b[1:]))
+
+
+def judge_commute(case, r, findings, stats: Counter):
+    """with commute=True the matches are exactly those of the pattern under swaps of commutative operands:
+    variant k of GraphPattern.commute() against the instances of the k-th swapped pattern"""
+    parts = r["real_commute"].split(" || ")
+    masks = L.commute_masks(case["pattern"])
+    if not parts[0].startswith("K") or len(parts) - 1 != len(masks) or len(r["commute_spec"]) != len(masks):
+        return []
+    out = []
+    for k, (variant, spec, mask) in enumerate(zip(parts[1:], r["commute_spec"], masks)):
+        body = variant.split(" #K ")[0]
+        stats["commute_oracle_variants"] += 1
+        if body.startswith("EXC:"):
+            continue
+        sols = parse_spec(spec)
+        direction = None
+        if body.startswith("M1"):
+            b, nodes, outs_, _ = parse_match(body)
+            if (b, nodes, outs_) not in sols:
+                direction, what = "bogus", f"match reported that is no instance of the swapped pattern: {body} ; instances: {spec[:300]}"
+        elif sols:
+            direction, what = "miss", f"no match although the swapped pattern has an instance: {spec[:300]}"
+        if direction:
+            vcase = dict(case, pattern=L.swapped_pattern(case["pattern"], mask))
+            fid = classify(vcase, direction, findings)
+            out.append((fid, f"commute variant {k} (swaps {[i for i, s in enumerate(mask) if s]}): {what}"))
+    return out
 
 
 def classify(case, direction, findings):
@@ -444,6 +484,14 @@ def work(args):
                 stats["commute_" + r["real_commute"].split(" ", 1)[0][:14]] += 1
                 if not commute_agree(case, r["real_commute"], r["commute"]):
                     problems.append((case, "tie-commute", f"real={r['real_commute']} ; model={r['commute']}"))
+                if "commute_spec" in r:
+                    for fid, what in judge_commute(case, r, findings, stats):
+                        if fid:
+                            known_counts[fid] += 1
+                            if known_counts[fid] == 1:
+                                problems.append((case, "known:" + fid, what))
+                        else:
+                            problems.append((case, "property", what))
             if tie:
                 problems.append((case, "tie", tie))
             if prop:
@@ -581,7 +629,7 @@ def main(run: core.Run) -> None:
     special_witnesses(run, findings)
     samples: list = []
     ctx = mp.get_context("fork")
-    run_jobs(None, [("cases", corpus)], stats, problems, findings, known_counts, samples)
+    run_jobs(None, [("cases", corpus), ("cases", G.tolerance_cases())], stats, problems, findings, known_counts, samples)
     with ctx.Pool(workers) as pool:
         run_jobs(pool, jobs, stats, problems, findings, known_counts, samples)
     for sm in samples[:6]:
